@@ -349,7 +349,11 @@ func (w *World) typeID(t types.Type, d *Decls) int {
 		if types.Comparable(t) {
 			cmp = "true"
 		}
-		d.add(dk, fmt.Sprintf("; type %d = %s\n(assert (= (kindof %d) %d))\n(assert (= (tcomparable %d) %s))", id, key, id, kindOfType(t), id, cmp))
+		deep := "false"
+		if types.Comparable(t) && !holdsInterface(t, 0) {
+			deep = "true"
+		}
+		d.add(dk, fmt.Sprintf("; type %d = %s\n(assert (= (kindof %d) %d))\n(assert (= (tcomparable %d) %s))\n(assert (= (tdeepcmp %d) %s))", id, key, id, kindOfType(t), id, cmp, id, deep))
 		// structure of composite types (reflect.Type.Key / Elem)
 		switch u := t.Underlying().(type) {
 		case *types.Map:
@@ -472,4 +476,25 @@ func (w *World) resolveRegistrations() {
 			}
 		}
 	}
+}
+
+// holdsInterface: a value of type t can hold an interface value directly (struct field, array
+// element, or t itself), i.e. == on it may reach a dynamic type.
+func holdsInterface(t types.Type, depth int) bool {
+	if depth > 8 {
+		return true
+	}
+	switch u := types.Unalias(t).Underlying().(type) {
+	case *types.Interface:
+		return true
+	case *types.Struct:
+		for i := 0; i < u.NumFields(); i++ {
+			if holdsInterface(u.Field(i).Type(), depth+1) {
+				return true
+			}
+		}
+	case *types.Array:
+		return holdsInterface(u.Elem(), depth+1)
+	}
+	return false
 }
